@@ -2,13 +2,15 @@
 from lib import hexs
 
 MODULE = "DtailModel.Props.C18"
+# translated packages (tie G) this property's theorems rest on
+GEN_UNITS = ("Discovery",)
 GROUPS = ["C18"]
 BUDGET = {"quick": 600, "thorough": 12000}
 LEVEL_TEXT = ("Lean theorem C18_full_holds: for every entry list, filter and index sequence Intn can deliver, the "
               "contacted servers are a permutation without repetition of the distinct wanted entries; tied to the "
-              "code by running the real discovery.ServerList() with the shuffle's random indices re-derived, so the exact order is compared; c18.filter (a plugged-in discovery module supplies the list, the server argument is the /regex/ filter) and c18.reconnect (what a re-connecting client contacts over time: listed host:port addresses only)")
+              "code by running the real discovery.ServerList() with the shuffle's random indices re-derived, so the exact order is compared; c18.filter (a plugged-in discovery module supplies the list, the server argument is the /regex/ filter) and c18.reconnect (what a re-connecting client contacts over time: listed host:port addresses only); tie G: filterList, dedupList, shuffleList and ServerList of internal/discovery/discovery.go are translated to Lean from the working tree on every run and proved to be the model's filter / dedup / shuffle / serverList (C18_generated_steps_refine_model), hence C18_generated_server_list: the translated ServerList returns a permutation without repetition of the distinct wanted entries; the driver runs the translated ServerList beside the model on every case")
 TRUSTED = ["Lean 4 kernel", "axioms: propext, Quot.sound, Classical.choice (at most)", "overlay harness + dtmodel driver + this diff",
-           "modelled not verified: strings.Split, bufio.Scanner line splitting (both exercised by the differential run), math/rand (indices are inputs), Go regexp"]
+           "the Go-to-Lean translator extract/translate.go and its prelude Model/GoRT.lean (total indexing: an index panic is invisible in translated code — the model's shuffle keeps it as `none`; serverListFromModule (reflection, file / comma sources) and the random source are parameters)", "modelled not verified: strings.Split, bufio.Scanner line splitting (both exercised by the differential run), math/rand (indices are inputs), Go regexp"]
 ASSUMPTIONS = ["rand.Intn(n) returns an index below n"]
 RULE = ("seeded lists of 0..5000 entries with duplicates, host:port forms, empty entries, server files with CRLF / "
         "missing final newline / blank lines, /regex/ arguments; non-trivial = duplicates, more than one entry, a filter or a large list")
